@@ -28,6 +28,11 @@ type schedReader struct {
 	kind    int
 	zeros   int // zero-byte reads (0, nil) before every read that returns data; io.Reader allows them
 	zleft   int
+	// a reader whose error does not repeat: once the error has been returned, further reads deliver rest and
+	// then io.EOF (a parser that returns the error at once never sees them)
+	once bool
+	gave bool
+	rest []byte
 }
 
 var errHard = errors.New("verif: hard read error")
@@ -63,6 +68,15 @@ func (r *schedReader) Read(p []byte) (int, error) {
 		r.zleft = r.zeros
 	}
 	if r.pos >= len(r.data) {
+		if r.once && r.gave {
+			if len(r.rest) == 0 {
+				return 0, io.EOF
+			}
+			n := copy(p, r.rest)
+			r.rest = r.rest[n:]
+			return n, nil
+		}
+		r.gave = true
 		return 0, r.endErr()
 	}
 	want := len(p)
@@ -82,6 +96,7 @@ func (r *schedReader) Read(p []byte) (int, error) {
 	copy(p, r.data[r.pos:r.pos+want])
 	r.pos += want
 	if r.pos >= len(r.data) && r.eofData {
+		r.gave = true
 		return want, r.endErr()
 	}
 	return want, nil
@@ -104,6 +119,8 @@ type c18in struct {
 	Boxes   []c18box `json:"boxes,omitempty"` // when the stream was built from well-formed boxes
 	NoModel bool     `json:"oracle_only,omitempty"` // large stream: judged by the oracle, not evaluated in Coq
 	Zeros   int      `json:"zero_reads,omitempty"`  // (0, nil) reads before every read with data (no-ops for the model)
+	Once    bool     `json:"error_once,omitempty"`  // the read error is returned once; later reads deliver Rest, then io.EOF
+	Rest    []byte   `json:"rest_after_error,omitempty"`
 }
 
 type c18box struct {
@@ -128,7 +145,7 @@ func c18run(in c18in) c18obs {
 				done <- c18obs{Res: 9, Err: fmt.Sprint("panic: ", rec)}
 			}
 		}()
-		r := &schedReader{data: in.Stream, sched: in.Sched, eofData: in.EOFData, hard: in.Hard, kind: in.Kind, zeros: in.Zeros, zleft: in.Zeros}
+		r := &schedReader{data: in.Stream, sched: in.Sched, eofData: in.EOFData, hard: in.Hard, kind: in.Kind, zeros: in.Zeros, zleft: in.Zeros, once: in.Once, rest: append([]byte(nil), in.Rest...)}
 		var buf []byte
 		if in.BufSize > 0 {
 			buf = make([]byte, in.BufSize)
@@ -412,6 +429,24 @@ func runC18(c *lib.Ctx) error {
 			}
 			add(c18in{Stream: s[:cut], Sched: randSched(cut), EOFData: cut%2 == 0, Hard: true, Kind: kind, CbFail: -1}, 0, nil)
 			c.Count(fmt.Sprintf("read-error/kind-%d", kind))
+		}
+	}
+	// 3b'. the error comes together with the last bytes it can deliver and does not repeat: afterwards the reader
+	// goes on with the rest of the stream, or reports a clean end. The error must still be returned, whatever the
+	// bytes it came with complete (a box header, a box, nothing).
+	{
+		s := append(append(append(mkbox("styp", []byte{9, 9}), mkbox("moof", []byte{1, 2, 3})...), mkbox("mdat", []byte{4, 5, 6, 7})...), mkbox("free", []byte{8})...)
+		for cut := 1; cut <= len(s); cut++ {
+			for v := 0; v < 2; v++ {
+				kind := (cut + v) % 4
+				in := c18in{Stream: s[:cut], Sched: randSched(cut), EOFData: true, Hard: true, Kind: kind, CbFail: -1, Once: true}
+				if v == 1 {
+					in.Rest = s[cut:]
+					in.Sched = []int{cut} // one read delivers everything up to the error
+				}
+				add(in, 0, nil)
+				c.Count(fmt.Sprintf("read-error-once/kind-%d", kind))
+			}
 		}
 	}
 	// 3c. large boxes and growing chunks: the buffer has to grow while it is much larger than its content
